@@ -581,4 +581,52 @@ def c18(ctx):
                    "filters have no destroy function in the C API; the harness releases them with Box::from_raw outside the accounting"])
 
 
-CHECKS = {"C17": c17, "C18": c18, "C14": c14, "C13": c13, "C07": c07, "C08": c08, "C09": c09, "C10": c10, "C11": c11, "C03": c03, "C06": c06, "C01": c01, "C02": c02, "C04": c04, "C05": c05}
+def c15(ctx):
+    q = ctx.quick
+    vecs, _ = tlc_mc(ctx, "MC_Units", invariants=["Unique", "Readable", "ScalePositive", "Emit"], workers=8, timeout=3000)
+    ev1 = hs_run(ctx, vecs, "gen")
+    ctx.bads += tlc_trace(ctx, "Trace_Units", ev1, shards=14)
+    note_events(ctx, ev1, key=lambda e: [e.get("id"), e.get("v")])
+    ev2 = hs_rec(ctx, "units", 1 if q else 2)
+    evs = [e for e in read_ndjson(ev2) if e["op"] == "units.lookup"]
+    f = ctx.fresh("lookups") + ".ndjson"
+    write_ndjson(f, evs)
+    ctx.bads += tlc_trace(ctx, "Trace_Units", f, shards=8)
+    note_events(ctx, f, key=lambda e: e.get("id"))
+    return finish(ctx,
+                  "MC (data theorems, exhaustive over the 443 units of UnitsDb, generated from unit-gen/units.txt by an independent "
+                  "converter): no identifier belongs to two units; every symbol is a word of the Zinc unit alphabet that the number grammar "
+                  "neither continues into nor cuts (numerals 1, -1.5, 1e3, 1E-3, 12_345.5). GEN (exhaustive): every identifier of every unit "
+                  "looked up (must return the database row: ids, dimension vector, scale and offset numerals), ~7 near-miss strings per "
+                  "identifier (must return nothing unless they are identifiers), every unit x 7 magnitudes (0, 1, -1, -1.5, 0.001, 1e21, "
+                  "1.2345678e-5) through Zinc and Hayson. REC: %d random non-identifier strings. distinct = distinct lookups / codec values"
+                  % (2000 if q else 20000),
+                  ["UnitsDb.tla is regenerated from /repo/unit-gen/units.txt on every run; units_generated.rs is not read"],
+                  exhaustive=True)
+
+
+def c16(ctx):
+    q = ctx.quick
+    tlc_mc(ctx, "MC_Units", invariants=["Unique", "Readable", "ScalePositive"], workers=8, timeout=3000, want_vectors=False)
+    ev2 = hs_rec(ctx, "units", 1 if q else 2)
+    evs = [e for e in read_ndjson(ev2) if e["op"] != "units.lookup"]
+    f = ctx.fresh("conv") + ".ndjson"
+    write_ndjson(f, evs)
+    ctx.bads += tlc_trace(ctx, "Trace_Units", f, shards=14, per_shard_min=20)
+    for e in evs:
+        if e["op"] in ("units.conv", "units.muldiv"):
+            ctx.evaluations += len(e["results"]) if e["op"] == "units.conv" else e.get("pairs", 0)
+    note_events(ctx, f, key=lambda e: [e.get("op"), e.get("a"), e.get("x"), e.get("b")])
+    return finish(ctx,
+                  "exhaustive over all 443 x 443 ordered pairs of database units: convert_to succeeds iff the dimension vectors are equal; when "
+                  "it succeeds the result is within 1e-12 (relative to the magnitudes involved) of ((x*scale_a + off_a) - off_b)/scale_b "
+                  "evaluated exactly on the decimal numerals of units.txt, and converting back returns x (magnitudes: %s); unit * and / over "
+                  "all ordered pairs: a yielded unit must have dimension = sum / difference and scale = product / quotient within 1e-3; "
+                  "Number + - * / over {none, m, s, kWh, h, degF, kW} x 6 magnitudes: common unit kept, different units fail for + -, "
+                  "value = the IEEE result. Each conv / muldiv event covers one source unit against all 443 targets; evaluations counts "
+                  "pairs" % ("one of {0, 1, -40, 1000.5} per source unit" if q else "0, 1, -40, 1000.5"),
+                  ["exact decimal arithmetic by java.math.BigDecimal through the HsNum override; quotients to 60 significant digits"],
+                  exhaustive=True)
+
+
+CHECKS = {"C15": c15, "C16": c16, "C17": c17, "C18": c18, "C14": c14, "C13": c13, "C07": c07, "C08": c08, "C09": c09, "C10": c10, "C11": c11, "C03": c03, "C06": c06, "C01": c01, "C02": c02, "C04": c04, "C05": c05}
